@@ -93,6 +93,8 @@ def term_zoo():
     add("SystemTimeValue", 0, lambda f: T.SystemTimeValue())
     add("Tuple", 2, lambda f: T.Tuple(f[0], f[1]))
     add("Array", 2, lambda f: T.Array(f[0], f[1]))
+    add("Array.const", 0, lambda f: T.Array(1, "x", 2.5))  # plain values only: one parameter when parameterised
+    add("Tuple.const", 0, lambda f: T.Tuple(1, "x"))
     add("Bracket", 1, lambda f: T.Bracket(f[0]))
     add("NestedCriterion", 3, lambda f: T.NestedCriterion(Equality.eq, Boolean.and_, f[0], f[1], f[2]))
     add("BasicCriterion", 2, lambda f: f[0] == f[1])
